@@ -266,6 +266,8 @@ static void cpu_run(const std::vector<std::string> &plan, Child &c) {
   auto is_target_name = [](const std::string &n) { for (auto t : kTargets) if (n == t) return true; return false; };
   bool bk_exists = is_target_name(backend), tg_exists = is_target_name(otarget);
   OrcTarget *def = orc_target_get_default();
+  if (orc_target_get_by_name(nullptr) != def)
+    c.violation("byname", "null-name-is-not-default", "orc_target_get_by_name(NULL) does not return the default target");
   c.event("default=%s (model %s) ORC_BACKEND=%s ORC_TARGET=%s", tname(def).c_str(), m.def.c_str(), backend.c_str(), otarget.c_str());
   c.count("boot.default_" + (tname(def).empty() ? std::string("none") : tname(def)));
   if (backend == "-" && otarget == "-") {
